@@ -48,6 +48,9 @@ type eniOptions struct {
 
 	isFull bool
 	errors []error
+
+	// noGrow the eni is usable but can not get more ip (vSwitch has no ip left), the idle ip it holds still counts
+	noGrow bool
 }
 
 var EniOptions = map[eniTypeKey]*aliyunClient.CreateNetworkInterfaceOptions{
